@@ -76,12 +76,39 @@ def keyTwin (o : Opts) (nodes : List Json) : Bool :=
           identObj o x != identObj o y && equivB o (pathObj x) (pathObj y)))
       | _ => false)
 
+/-- the ACTIVE part of the class KF-C01-keytwin for diff-then-patch: a twin pair exists AND one of its members
+    that lacks a set key (the one whose path object is completed with null) has an identity-mate with other
+    content somewhere in the two documents — only then is a hunk addressed THROUGH a null-completed path object.
+    When every member lacking a key is unchanged, all keyed paths carry explicit key values, the exact pass of the
+    lookup finds the member the hunk was made for, and a failure is not an instance of the known finding. -/
+def keyTwinActive (o : Opts) (nodes : List Json) : Bool :=
+  match keysOf o with
+  | none => false
+  | some ks =>
+    let pathObj (kvs : List (String × Json)) : Json :=
+      match newPathSetKeys o kvs with
+      | .setKeys po => .obj po
+      | _ => .obj kvs
+    let members : List (List (String × Json)) := nodes.flatMap (fun n => match n with
+      | .arr _ xs => xs.filterMap (fun n => match n with | .obj kvs => some kvs | _ => none)
+      | _ => [])
+    let partialKey (kvs : List (String × Json)) : Bool := ks.any (fun k => (alookup k kvs).isNone)
+    let changes (z : List (String × Json)) : Bool :=
+      members.any (fun z' => identObj o z' == identObj o z && !(specEq (.obj z') (.obj z)))
+    nodes.any (fun n => match n with
+      | .arr _ xs =>
+        let objs := xs.filterMap (fun n => match n with | .obj kvs => some kvs | _ => none)
+        objs.any (fun x => objs.any (fun y =>
+          identObj o x != identObj o y && equivB o (pathObj x) (pathObj y) &&
+          ((partialKey x && changes x) || (partialKey y && changes y))))
+      | _ => false)
+
 /-- C01 oracle on the implementation's outputs: the patch succeeded and its result is equivalent
     to `b` (model `equals` and the hash-free spec `equivB`). `implEq` is the implementation's own
     verdict `r.Equals(b, opts)`. -/
 def oracleC01 (o : Opts) (a b : Json) (implEq : Bool) (out : Outcome Json) : String :=
   let bad (why : String) : String :=
-    if keyTwin o (subterms a ++ subterms b) then "kf KF-C01-keytwin " ++ why
+    if keyTwinActive o (subterms a ++ subterms b) then "kf KF-C01-keytwin " ++ why
     else if identPerm o (subterms a ++ subterms b) then "kf KF-C01-identperm " ++ why
     else if !(aliasFree o (hashedNodes a ++ hashedNodes b)) then "kf KF-C04-alias " ++ why
     else "fail " ++ why
@@ -247,6 +274,14 @@ def oracleC07 (o : Opts) (a b : Json) (d : Diff) (loo : List (Outcome Json)) : S
     else if hasNegZero a || hasNegZero b then "kf KF-C05-negzero " ++ why
     else if hasPrecisionPair o a b then "kf KF-C05-precision " ++ why
     else "fail " ++ why
+  -- the LOCATION clause is structural (the reference interpreter compares without the precision): that Diff ignores the
+  -- precision (KF-C05-precision) never explains a hunk that names values which are not where it says they are
+  let clsLoc (why : String) : String :=
+    if keyTwin o (subterms a ++ subterms b) then "kf KF-C01-keytwin " ++ why
+    else if identPerm o (subterms a ++ subterms b) then "kf KF-C01-identperm " ++ why
+    else if !(aliasFree o (hashedNodes a ++ hashedNodes b)) then "kf KF-C04-alias " ++ why
+    else if hasNegZero a || hasNegZero b then "kf KF-C05-negzero " ++ why
+    else "fail " ++ why
   -- (ii) what a hunk removes differs from what it adds
   if d.any (fun h => !h.merge && h.remove.length == h.add.length && equivList o h.remove h.add && !h.remove.isEmpty) then
     cls "a hunk removes exactly what it adds (no-op hunk)"
@@ -285,7 +320,7 @@ def oracleC07 (o : Opts) (a b : Json) (d : Diff) (loo : List (Outcome Json)) : S
   else if dispatchTag o == .list && !(isMerge o) &&
       (d.foldl (fun (st : Option Json) h => st.bind (fun n => applyStrict n h.path h)) (some a)).isNone &&
       d.all (fun h => h.path.all (fun e => match e with | .key _ | .idx _ => true | _ => false)) then
-    cls "a hunk removes values, or names context, not present at the addressed location (after the preceding hunks)"
+    clsLoc "a hunk removes values, or names context, not present at the addressed location (after the preceding hunks)"
   -- (iv) no redundant hunk
   else match (loo.zipIdx.find? (fun (out, _) => match out with
       | .ok r => equivB o r b && equals o r b
